@@ -185,11 +185,17 @@ func (cfg *Config) CompilerOpts() []compiler.Option {
 // VMOpts returns virtual machine options derived from this configuration.
 func (cfg *Config) VMOpts() []vm.Option {
 	cfg.init()
+	// The options describe the configuration as a whole, also where it has
+	// nothing to give (no globals, no importer, no OS, no concurrency): a VM
+	// that is used again (WithVM) keeps what earlier options set until other
+	// options set it again, and would otherwise run this evaluation with
+	// what an earlier configuration left there
 	var opts []vm.Option
 	globals := cfg.globals
-	if len(globals) > 0 {
-		opts = append(opts, vm.WithGlobals(globals))
+	if globals == nil {
+		globals = map[string]any{}
 	}
+	opts = append(opts, vm.WithGlobals(globals))
 	importer := cfg.importer
 	if importer == nil && cfg.localImportPath != "" {
 		var names []string
@@ -198,14 +204,12 @@ func (cfg *Config) VMOpts() []vm.Option {
 		}
 		importer = newLocalImporter(names, cfg.localImportPath)
 	}
-	if importer != nil {
-		opts = append(opts, vm.WithImporter(importer))
-	}
-	if cfg.os != nil {
-		opts = append(opts, vm.WithOS(cfg.os))
-	}
+	opts = append(opts, vm.WithImporter(importer))
+	opts = append(opts, vm.WithOS(cfg.os))
 	if cfg.withConcurrency {
 		opts = append(opts, vm.WithConcurrency())
+	} else {
+		opts = append(opts, vm.WithoutConcurrency())
 	}
 	return opts
 }
